@@ -5,6 +5,7 @@ package main
 import (
 	"fmt"
 	"sort"
+	"strings"
 
 	"github.com/lyraproj/pcore/px"
 	"github.com/lyraproj/pcore/types"
@@ -13,9 +14,9 @@ import (
 
 type bitrow []uint64
 
-func newRow(n int) bitrow         { return make(bitrow, (n+63)/64) }
-func (r bitrow) set(i int)        { r[i/64] |= 1 << uint(i%64) }
-func (r bitrow) get(i int) bool   { return r[i/64]&(1<<uint(i%64)) != 0 }
+func newRow(n int) bitrow       { return make(bitrow, (n+63)/64) }
+func (r bitrow) set(i int)      { r[i/64] |= 1 << uint(i%64) }
+func (r bitrow) get(i int) bool { return r[i/64]&(1<<uint(i%64)) != 0 }
 
 type checker struct {
 	p    *pool
@@ -35,6 +36,17 @@ func tagsOf(ds ...*V) []string {
 		}
 		set["top:"+d.K] = true
 		tops = append(tops, d.K)
+		// parsed type expressions: the name of the type, so that every kind of type is a group of its own
+		d.any(func(*V) bool { return false }, func(t *T) bool {
+			if t.K == "Text" {
+				n := string(t.S)
+				if i := strings.IndexByte(n, '['); i >= 0 {
+					n = n[:i]
+				}
+				set["text:"+n] = true
+			}
+			return false
+		})
 		if d.hasNaN() {
 			set["nan"] = true
 		}
@@ -65,11 +77,42 @@ func tagsOf(ds ...*V) []string {
 // violate records a counter-example; at most 12 per clause are kept (the first ones are the
 // smallest: the pool starts with the corpus and the small families)
 func (ck *checker) violate(clause, what string, ds ...*V) {
+	ck.violateT(clause, what, nil, ds...)
+}
+
+// violateT: extra are the narrow tags of known findings (see known_findings/C07.json)
+func (ck *checker) violateT(clause, what string, extra []string, ds ...*V) {
 	ck.viol[clause]++
 	if ck.viol[clause] > 150 {
 		return
 	}
-	ck.res.Violate(lib.Violation{Clause: clause, What: what, Input: map[string]interface{}{"kind": "values", "clause": clause, "vs": ds}, Tags: tagsOf(ds...)})
+	ck.res.Violate(lib.Violation{Clause: clause, What: what, Input: map[string]interface{}{"kind": "values", "clause": clause, "vs": ds}, Tags: append(tagsOf(ds...), extra...)})
+}
+
+// identityKey: the hash key of an Object type or a TypeSet, "\x00tObject<n>" / "\x00tTypeSet<n>" where n is
+// a counter incremented for every type created (types/objecttype.go:151, types/typeset.go:171)
+func identityKey(k string) bool {
+	for _, p := range []string{"\x00tObject", "\x00tTypeSet"} {
+		if strings.HasPrefix(k, p) && len(k) > len(p) {
+			digits := true
+			for _, c := range k[len(p):] {
+				digits = digits && c >= '0' && c <= '9'
+			}
+			if digits {
+				return true
+			}
+		}
+	}
+	return false
+}
+
+// kfIdentityKey is the tag of the open finding object-type-key-by-identity: two equal values whose
+// keys differ and are both identity keys of Object types / TypeSets
+func kfIdentityKey(k1, k2 string) []string {
+	if k1 != k2 && identityKey(k1) && identityKey(k2) {
+		return []string{"kf:object-type-key-by-identity"}
+	}
+	return nil
 }
 
 func (ck *checker) equals(x, y px.Value, dx, dy *V, how string) bool {
@@ -104,11 +147,14 @@ func (ck *checker) keys() {
 			ck.res.Count("key.none")
 			continue
 		}
-		// hidden state: the copy whose caches were forced has the same key
+		// hidden state: the key of the second copy before and after its caches were forced
 		var kb string
 		fb, eb := guarded(func() { kb = string(px.ToKey(it.b)) })
-		if fb != "" || eb != "" || kb != it.key {
-			ck.violate("hidden-state", fmt.Sprintf("ToKey(%s) = %q, but %q (%s%s) after PType(), String(), ToKey() were called on the value", it.d, it.key, kb, fb, eb), it.d)
+		if fb != "" || eb != "" || !it.keyB0OK || kb != it.keyB0 {
+			ck.violate("hidden-state", fmt.Sprintf("ToKey(%s) = %q, but %q (%s%s) after PType(), String(), ToKey() were called on the value", it.d, it.keyB0, kb, fb, eb), it.d)
+		} else if kb != it.key && ck.equals(it.a, it.b, it.d, it.d, "two copies") {
+			// two separately built copies that are equal have the same key
+			ck.violateT("key-iff-eq", fmt.Sprintf("two separately built copies of %s are equal but their hash keys differ: %q, %q", it.d, it.key, kb), kfIdentityKey(it.key, kb), it.d, it.d)
 		}
 	}
 }
@@ -161,7 +207,7 @@ func (ck *checker) pairs() {
 				ke := x.key == y.key
 				ck.res.Evaluations++
 				if e && !ke {
-					ck.violate("key-iff-eq", fmt.Sprintf("%s equals %s but their hash keys differ: %q, %q", x.d, y.d, x.key, y.key), x.d, y.d)
+					ck.violateT("key-iff-eq", fmt.Sprintf("%s equals %s but their hash keys differ: %q, %q", x.d, y.d, x.key, y.key), kfIdentityKey(x.key, y.key), x.d, y.d)
 				}
 				if ke && !e && x.d.clean() && y.d.clean() {
 					ck.violate("key-iff-eq", fmt.Sprintf("%s and %s are not equal but have the same hash key %q", x.d, y.d, x.key), x.d, y.d)
